@@ -224,7 +224,7 @@ HCIcskphuff_decode(compinfo_t *info, int32 length, uint8 *buf)
         a = ROOT;         /* start at the root of the tree and find the leaf we need */
 
         do { /* walk down once for each bit on the path */
-            if (Hbitread(info->aid, 1, &bit) == FAIL)
+            if (Hbitread(info->aid, 1, &bit) != 1) /* a failed read returns a short count */
                 HRETURN_ERROR(DFE_CDECODE, FAIL);
             a = ((bit == 0) ? (skphuff_info->left[skphuff_info->skip_pos][a])
                             : (skphuff_info->right[skphuff_info->skip_pos][a]));
